@@ -81,19 +81,31 @@ theorem C17_tie_onTimeout_guards :
     Gen.calls_timer_handleEventMessage = ["OnTimeout", "OnExecuteDuty"] ∧
     Gen.timer_FirstRound = 1 := by decide
 
+/-- indirect facts the timer relies on: the beacon network handed to `roundtimer.New` is the configured one
+    (`Network.GetNetwork` returns its receiver — incl. the LocalTestNet flag that selects the genesis time —, the operator
+    passes `GetNetwork()` on and `SetupRunners` gives it to `roundtimer.New`, which stores it), the slot start is
+    genesis + slot * slot duration, `OnTimeout` assigns the handler unconditionally, `waitForRound` reads it at expiry -/
+theorem C17_tie_network_and_handler :
+    Gen.has_timer_GetNetwork = [true] ∧ Gen.has_timer_MinGenesisTime = [true, true] ∧
+    Gen.has_timer_GetSlotStartTime = [true, true, true] ∧ Gen.src_timer_New = "61d992453552569f" ∧
+    Gen.calls_timer_opNewController = ["GetNetwork"] ∧ Gen.calls_timer_SetupRunners = ["roundtimer.New"] ∧
+    Gen.has_timer_OnTimeout = [true] ∧ Gen.lits_timer_OnTimeout = [] ∧
+    Gen.has_timer_waitForRound = [true, true, true] ∧ Gen.has_timer_RoundTimeout = [true, true, true, true] := by decide
+
 /-! ## timer half -/
 
 /-- a script with three armings (rounds 1,2,4), the second re-arms before the first expires; used for non-vacuity -/
 def exCfg : Cfg := { role := Gen.timer_BNRoleAttester, slotDur := 300, quickThr := 2, quick := 50, slow := 200, genesis := 1000 }
 def exOps : List Op :=
-  [.arm 0 1 1000, .arm 0 2 1010, .expire 0 1150, .expire 1 1200, .arm 0 4 1210, .cancel, .expire 2 1700, .reap 2]
+  [.register (some 0), .arm 0 1 1000, .arm 0 2 1010, .expire 0 1150, .expire 1 1200, .register (some 7), .arm 0 4 1210,
+   .cancel, .expire 2 1700, .reap 2]
 
 /-- (1) at most one callback per arming — for EVERY op list (no hypothesis on the rounds needed) -/
 theorem C17_callback_at_most_once_per_arming (c : Cfg) (ops : List Op) :
     ((run c init ops).2.map (·.id)).Nodup :=
   (run_fires_ids c init ops (by simp [init]) (by simp [init])).1
 
-example : (run exCfg init exOps).2 = [⟨1, 2, 1200⟩, ⟨2, 4, 1700⟩] := by decide
+example : (run exCfg init exOps).2 = [⟨1, 2, 1200, 0⟩, ⟨2, 4, 1700, 7⟩] := by decide
 
 /-- (3) a callback never runs before the deadline of the arming it belongs to: every callback of a run is
     produced by one `expire` step of an arming `p` made earlier in the list, at a time `now ≥ p.deadline`
@@ -101,11 +113,11 @@ example : (run exCfg init exOps).2 = [⟨1, 2, 1200⟩, ⟨2, 4, 1700⟩] := by 
 theorem C17_callback_not_before_deadline (c : Cfg) (ops : List Op) (f : Fire)
     (hf : f ∈ (run c init ops).2) :
     ∃ pre post now p, ops = pre ++ Op.expire p.id now :: post ∧ p ∈ armings c pre ∧
-      f = { id := p.id, round := p.round, time := now } ∧ p.deadline ≤ now := by
+      f.id = p.id ∧ f.round = p.round ∧ f.time = now ∧ p.deadline ≤ now := by
   obtain ⟨pre, op, post, hops, hstep⟩ := fire_of_run c init ops f hf
-  obtain ⟨id, now, p, rfl, hp, rfl, hdl, _, hfe, _⟩ := step_fire c _ op f hstep
+  obtain ⟨id, now, p, k, rfl, hp, rfl, hdl, _, _, hfe, _⟩ := step_fire c _ op f hstep
   have hinv := inv_run c init pre inv_init
-  refine ⟨pre, post, now, p, hops, ?_, hfe, hdl⟩
+  refine ⟨pre, post, now, p, hops, ?_, by rw [hfe], by rw [hfe], by rw [hfe], hdl⟩
   rw [← run_init_log]
   exact hinv.pend_log p hp
 
@@ -115,13 +127,13 @@ theorem C17_callback_not_before_deadline (c : Cfg) (ops : List Op) (f : Fire)
 theorem C17_callback_only_latest (c : Cfg) (ops : List Op) (hinc : IncreasingArms ops) (f : Fire)
     (hf : f ∈ (run c init ops).2) :
     ∃ pre post now p, ops = pre ++ Op.expire p.id now :: post ∧ (armings c pre).getLast? = some p ∧
-      f = { id := p.id, round := p.round, time := now } ∧ p.deadline ≤ now := by
+      f.id = p.id ∧ f.round = p.round ∧ f.time = now ∧ p.deadline ≤ now := by
   obtain ⟨pre, op, post, hops, hstep⟩ := fire_of_run c init ops f hf
-  obtain ⟨id, now, p, rfl, hp, rfl, hdl, harm, hfe, _⟩ := step_fire c _ op f hstep
+  obtain ⟨id, now, p, k, rfl, hp, rfl, hdl, harm, _, hfe, _⟩ := step_fire c _ op f hstep
   have hinv := inv_run c init pre inv_init
   have hlog := run_init_log c pre
   have hpl : p ∈ armings c pre := by rw [← hlog]; exact hinv.pend_log p hp
-  refine ⟨pre, post, now, p, hops, ?_, hfe, hdl⟩
+  refine ⟨pre, post, now, p, hops, ?_, by rw [hfe], by rw [hfe], by rw [hfe], hdl⟩
   -- the log is non-empty, its last element q has the armed round, which is p's round; rounds are injective
   cases hlast : (armings c pre).getLast? with
   | none =>
@@ -150,16 +162,16 @@ theorem C17_callback_at_most_once_per_round (c : Cfg) (ops : List Op) (hinc : In
   -- the id of a callback is determined by its round
   have key : ∀ f ∈ (run c init ops).2, ∀ g ∈ (run c init ops).2, f.round = g.round → f.id = g.id := by
     intro f hf g hg hr
-    obtain ⟨pre, post, now, p, hops, hp, hfe, _⟩ := C17_callback_not_before_deadline c ops f hf
-    obtain ⟨pre', post', now', p', hops', hp', hge, _⟩ := C17_callback_not_before_deadline c ops g hg
+    obtain ⟨pre, post, now, p, hops, hp, hfi, hfr, _, _⟩ := C17_callback_not_before_deadline c ops f hf
+    obtain ⟨pre', post', now', p', hops', hp', hgi, hgr, _, _⟩ := C17_callback_not_before_deadline c ops g hg
     have hmem : ∀ (pre post : List Op) (x : Op) (p : Pend), ops = pre ++ x :: post → p ∈ armings c pre → p ∈ armings c ops := by
       intro pre post x p h hp
       rw [h]; unfold armings at *; rw [armingsFrom_append]
       exact List.mem_append_left _ hp
     have h1 := hmem _ _ _ p hops hp
     have h2 := hmem _ _ _ p' hops' hp'
-    have : p = p' := round_inj_of_pairwise _ hpw p h1 p' h2 (by rw [hfe, hge] at hr; exact hr)
-    rw [hfe, hge, this]
+    have : p = p' := round_inj_of_pairwise _ hpw p h1 p' h2 (by rw [← hfr, ← hgr]; exact hr)
+    rw [hfi, hgi, this]
   generalize (run c init ops).2 = fs at hid key
   induction fs with
   | nil => simp
@@ -168,6 +180,50 @@ theorem C17_callback_at_most_once_per_round (c : Cfg) (ops : List Op) (hinc : In
     refine ⟨?_, ih hid.2 (fun f hf g hg => key f (List.mem_cons_of_mem _ hf) g (List.mem_cons_of_mem _ hg))⟩
     intro x hx hxr
     exact hid.1 x hx (key x (List.mem_cons_of_mem _ hx) a List.mem_cons_self hxr)
+
+/-- (6) the callback invoked is the one registered: every callback goes to the handler passed to the LAST
+    `OnTimeout` call made before the expiry (re-registration replaces the earlier handler — `registerTimeoutHandler`
+    does this for every new height); with no handler in force (`nil`) there is no callback -/
+theorem C17_callback_to_latest_handler (c : Cfg) (ops : List Op) (f : Fire) (hf : f ∈ (run c init ops).2) :
+    ∃ pre post id now, ops = pre ++ Op.expire id now :: post ∧ f.id = id ∧ f.time = now ∧
+      handlerAfter none pre = some f.handler := by
+  obtain ⟨pre, op, post, hops, hstep⟩ := fire_of_run c init ops f hf
+  obtain ⟨id, now, p, k, rfl, _, rfl, _, _, hk, hfe, _⟩ := step_fire c _ op f hstep
+  refine ⟨pre, post, p.id, now, hops, by rw [hfe], by rw [hfe], ?_⟩
+  have := run_handler c init pre
+  rw [hk] at this
+  rw [hfe]
+  exact this.symm
+
+example : handlerAfter none [.register (some 0), .arm 0 1 1000, .register (some 7)] = some 7 := by decide
+
+/-- without a registered handler nothing is ever called back -/
+theorem C17_no_handler_no_callback (c : Cfg) (ops : List Op) (hno : ∀ k, Op.register (some k) ∉ ops) :
+    (run c init ops).2 = [] := by
+  cases hfs : (run c init ops).2 with
+  | nil => rfl
+  | cons f fs =>
+    exfalso
+    obtain ⟨pre, post, id, now, hops, _, _, hh⟩ := C17_callback_to_latest_handler c ops f (by rw [hfs]; exact List.mem_cons_self)
+    have hpre : ∀ k, Op.register (some k) ∉ pre := fun k hk => hno k (by rw [hops]; exact List.mem_append_left _ hk)
+    have : ∀ (l : List Op), (∀ k, Op.register (some k) ∉ l) → handlerAfter none l = none := by
+      intro l
+      induction l with
+      | nil => intro _; rfl
+      | cons x xs ih =>
+        intro hx
+        have hxs : ∀ k, Op.register (some k) ∉ xs := fun k hk => hx k (List.mem_cons_of_mem _ hk)
+        cases x with
+        | register k =>
+          cases k with
+          | none => simpa [handlerAfter] using ih hxs
+          | some k => exact absurd List.mem_cons_self (hx k)
+        | arm _ _ _ => simpa [handlerAfter] using ih hxs
+        | expire _ _ => simpa [handlerAfter] using ih hxs
+        | cancel => simpa [handlerAfter] using ih hxs
+        | reap _ => simpa [handlerAfter] using ih hxs
+    rw [this pre hpre] at hh
+    cases hh
 
 /-! ### what the quantifier "armed for strictly increasing rounds" excludes
 The real timer never stops an earlier `time.Timer`; it only compares round VALUES at expiry. Outside the
@@ -178,36 +234,35 @@ real timer and the model predicts what it observes). -/
 def C17_callback_only_latest_any_rounds_full : Prop :=
   ∀ (c : Cfg) (ops : List Op) (f : Fire), f ∈ (run c init ops).2 →
     ∃ pre post now p, ops = pre ++ Op.expire p.id now :: post ∧ (armings c pre).getLast? = some p ∧
-      f = { id := p.id, round := p.round, time := now } ∧ p.deadline ≤ now
+      f.id = p.id ∧ f.round = p.round ∧ f.time = now ∧ p.deadline ≤ now
 
 /-- witness: round 1 armed, superseded by round 2, then round 1 armed AGAIN (proposer role: deadline = now + quick):
     the first arming's timer expires while the armed round is 1 again, so the callback runs for an arming that is
     not the latest one — 40 time units before the latest arming's deadline -/
-def exRearmOps : List Op := [.arm 0 1 0, .arm 0 2 10, .arm 0 1 40, .expire 0 50]
+def exRearmOps : List Op := [.register (some 0), .arm 0 1 0, .arm 0 2 10, .arm 0 1 40, .expire 0 50]
 def exRearmCfg : Cfg := { exCfg with role := Gen.timer_BNRoleProposer }
 
 theorem C17_callback_only_latest_any_rounds_full_refuted : ¬ C17_callback_only_latest_any_rounds_full := by
   intro h
-  have hf : (⟨0, 1, 50⟩ : Fire) ∈ (run exRearmCfg init exRearmOps).2 := by decide
-  obtain ⟨pre, post, now, p, hops, hlast, hfe, _⟩ := h exRearmCfg exRearmOps ⟨0, 1, 50⟩ hf
-  have hid : p.id = 0 := by
-    have := congrArg Fire.id hfe
-    exact this.symm
-  -- the only `expire` of the list is its 4th element, so `pre` is the three armings, whose last has id 2
+  have hf : (⟨0, 1, 50, 0⟩ : Fire) ∈ (run exRearmCfg init exRearmOps).2 := by decide
+  obtain ⟨pre, post, now, p, hops, hlast, hfi, _, _, _⟩ := h exRearmCfg exRearmOps ⟨0, 1, 50, 0⟩ hf
+  have hid : p.id = 0 := hfi.symm
+  -- the only `expire` of the list is its last element, so `pre` is register + the three armings, whose last has id 2
   unfold exRearmOps at hops
   match pre, hops with
   | [], hops => simp at hops
   | [_], hops => simp at hops
   | [_, _], hops => simp at hops
-  | [a, b, d], hops =>
+  | [_, _, _], hops => simp at hops
+  | [a, b, d, e], hops =>
     simp only [List.cons_append, List.nil_append, List.cons.injEq] at hops
-    obtain ⟨rfl, rfl, rfl, _, _⟩ := hops
-    have : (armings exRearmCfg [Op.arm 0 1 0, Op.arm 0 2 10, Op.arm 0 1 40]).getLast?
+    obtain ⟨rfl, rfl, rfl, rfl, _, _⟩ := hops
+    have : (armings exRearmCfg [Op.register (some 0), Op.arm 0 1 0, Op.arm 0 2 10, Op.arm 0 1 40]).getLast?
         = some ⟨2, 1, 90⟩ := by decide
     rw [this] at hlast
     cases hlast
     simp at hid
-  | _ :: _ :: _ :: _ :: rest, hops =>
+  | _ :: _ :: _ :: _ :: _ :: rest, hops =>
     have := congrArg List.length hops
     simp at this
 
@@ -218,7 +273,7 @@ def C17_callback_at_most_once_per_round_any_rounds_full : Prop :=
 theorem C17_callback_at_most_once_per_round_any_rounds_full_refuted :
     ¬ C17_callback_at_most_once_per_round_any_rounds_full := by
   intro h
-  have := h exCfg [.arm 0 1 1000, .arm 0 1 1010, .expire 0 1150, .expire 1 1150]
+  have := h exCfg [.register (some 0), .arm 0 1 1000, .arm 0 1 1010, .expire 0 1150, .expire 1 1150]
   revert this
   decide
 
